@@ -33,7 +33,7 @@ from . import common
 ID = "C06"
 LEVEL = "exploration"
 TIERS = {
-    "quick": {"runs": 340, "wall": 70, "run_timeout": 240, "schedules": 4, "hash_seeds": [1, 4242], "hash_runs": 24,
+    "quick": {"runs": 320, "wall": 60, "run_timeout": 240, "schedules": 4, "hash_seeds": [1, 4242], "hash_runs": 24,
               "shrink_s": 60},
     "thorough": {"runs": 12000, "wall": 1100, "run_timeout": 400, "schedules": 6,
                  "hash_seeds": [1, 2, 4242, 31337, 99991, "random"], "hash_runs": 200, "shrink_s": 180},
@@ -57,7 +57,7 @@ def gen(ch, tier):
     k = TIERS[tier]["schedules"]
     big = tier == "thorough" and ch.coin(0.3)
     scn = world.gen_gamma_scenario(ch.sub("scn"), max_annot=4, max_units=9 if big else 6,
-                                   max_samples=12 if big else 8, large_fast=0.12,
+                                   max_samples=12 if big else 8, large_fast=0.07 if tier == "quick" else 0.12,
                                    precisions=(None, None, 0.3, 0.2, 0.15, 0.1))
     return {"scenario": scn,
             "schedules": [world.gen_schedule(ch.sub(f"sched{i}")) for i in range(k)],
